@@ -83,14 +83,25 @@ Qed.
 
 (* ---------- the mask (1 << bits) - 1 ---------- *)
 
-Lemma gen_mask {A} w bits (k : Z -> res A) : 0 <= bits < w ->
-  (t1' <- dshl w 1 bits ;; t2' <- dsub t1' 1 ;; k t2') = k (RadixOut.bit_mask w bits).
+Lemma dsub_mask w bits : 0 <= bits < w -> dsub (u_shl w 1 bits) 1 = Done (RadixOut.bit_mask w bits).
 Proof.
-  intros Hb. rewrite dshl_ok by exact Hb. rewrite bind_Done. unfold dsub.
+  intros Hb. unfold dsub.
   pose proof (RadixOut.bit_mask_eq w bits Hb) as E. unfold RadixOut.bit_mask in *.
   pose proof (RadixOut.pow2_pos bits (proj1 Hb)).
   destruct (Z.ltb_spec (u_shl w 1 bits) 1); [lia|]. reflexivity.
 Qed.
+
+Lemma udiv_ok a b : b <> 0 -> udiv a b = Done (a / b).
+Proof. intros Hb. unfold udiv. destruct (Z.eqb_spec b 0); [contradiction | reflexivity]. Qed.
+
+Lemma urem_ok a b : b <> 0 -> urem a b = Done (a mod b).
+Proof. intros Hb. unfold urem. destruct (Z.eqb_spec b 0); [contradiction | reflexivity]. Qed.
+
+(* the straight-line prefix of a function: every checked operation succeeds; the order of independent operations in the
+   source does not matter to this tactic (`lia` discharges the side conditions) *)
+Ltac straight :=
+  repeat first [ rewrite bind_Done | rewrite dshl_ok by lia | rewrite dsub_mask by lia | rewrite udiv_ok by lia
+               | rewrite urem_ok by lia ].
 
 (* ---------- to_bitwise_digits_le ---------- *)
 
@@ -145,11 +156,9 @@ Theorem gen_to_bitwise_digits_le w N fuel self bits out :
   PrintGen.to_bitwise_digits_le w N fuel self bits = Done out.
 Proof.
   intros Hb Hne Hf H. unfold PrintGen.to_bitwise_digits_le. cbv zeta.
-  rewrite gen_mask by lia.
-  unfold udiv at 1. destruct (Z.eqb_spec bits 0) as [|_]; [lia|]. rewrite bind_Done.
-  destruct (gen_div_ceil w N fuel (Bits.bits_of w self) bits ltac:(lia)) as (cap & ->). rewrite bind_Done.
+  destruct (gen_div_ceil w N fuel (Bits.bits_of w self) bits ltac:(lia)) as (cap & ->).
   destruct (RadixOut.ldi_spec self Hne) as (Hlt & _). cbv zeta in Hlt.
-  rewrite arr_get_nat by exact Hlt. rewrite bind_Done. rewrite Nat2Z.id.
+  rewrite arr_get_nat by exact Hlt. straight. rewrite Nat2Z.id.
   unfold RadixOut.to_bitwise_digits_le in H. cbv zeta in H.
   destruct (RadixOut.bitwise_top (Z.to_nat w) bits (RadixOut.bit_mask w bits) (nth (Div.last_digit_index self) self 0)) as [l|] eqn:E;
     [|discriminate].
